@@ -119,9 +119,9 @@ Proof.
   apply item_outcome_ok in Hok. congruence.
 Qed.
 
-Lemma all_empty_monitor : forall l, all_empty (l_calls l) = true -> monitor1 l = true.
+Lemma all_empty_monitor : forall l, all_empty (l_calls l) = true -> monitor1_nf l = true.
 Proof.
-  intros l H. unfold monitor1. rewrite H. rewrite orb_true_l, andb_true_r.
+  intros l H. unfold monitor1_nf. rewrite H. rewrite orb_true_l, andb_true_r.
   apply forallb_forall. intros call Hc. unfold all_empty in H. rewrite forallb_forall in H. specialize (H call Hc).
   destruct call; [reflexivity|discriminate].
 Qed.
@@ -141,12 +141,12 @@ Lemma normal_monitor : forall l,
        | _, None => false
        end
    end) = true ->
-  monitor1 l = true.
+  monitor1_nf l = true.
 Proof.
   intros l Hown Hgate H. cbv zeta in H.
   destruct (flat_map _ (map (item_outcome (l_lock l) (l_ent l)) (l_items l))) as [|x xs] eqn:Ee.
   - apply andb_true_iff in H as [_ H]. pose proof (errs_nil _ _ _ Ee) as Hok.
-    unfold monitor1. apply andb_true_iff. split.
+    unfold monitor1_nf. apply andb_true_iff. split.
     + rewrite forallb_forall in H. apply forallb_forall. intros call Hc. specialize (H call Hc).
       unfold delivered_matches in H. apply andb_true_iff in H as [H _]. rewrite forallb_forall in H.
       apply forallb_forall. intros d Hd. specialize (H d Hd). apply andb_true_iff in H as [Hv Hex].
@@ -160,9 +160,9 @@ Proof.
   - apply andb_true_iff in H as [H _]. apply all_empty_monitor. assumption.
 Qed.
 
-Lemma accepts_monitor1 : forall l, accepts l = true -> monitor1 l = true.
+Lemma accepts_nf_monitor1 : forall l, accepts_nf l = true -> monitor1_nf l = true.
 Proof.
-  intros l H. unfold accepts in H. cbv zeta in H.
+  intros l H. unfold accepts_nf in H. cbv zeta in H.
   apply andb_true_iff in H as [H Hn]. apply andb_true_iff in H as [H _]. apply andb_true_iff in H as [_ Hown].
   destruct (l_ent l) as [self|g dec] eqn:El.
   - apply normal_monitor; [rewrite El; assumption|rewrite El; exact I|rewrite El; assumption].
@@ -171,6 +171,33 @@ Proof.
     + destruct (negb dec).
       * apply andb_true_iff in Hn as [_ Hn]. apply all_empty_monitor. assumption.
       * apply normal_monitor; [rewrite El; assumption|rewrite El; apply negb_false_iff in Eg; assumption|rewrite El; assumption].
+Qed.
+
+
+(* ---------- with env faults ---------- *)
+
+Lemma all_empty_In : forall (calls : list (list dobs)) call, all_empty calls = true -> In call calls -> call = [].
+Proof.
+  intros calls call H Hc. unfold all_empty in H. rewrite forallb_forall in H. specialize (H call Hc).
+  destruct call; [reflexivity|discriminate].
+Qed.
+
+Lemma accepts_fault : forall l, accepts l = true -> l_fault l = true ->
+  all_empty (l_calls l) = true /\ l_err l <> None.
+Proof.
+  intros l H Hf. unfold accepts in H. rewrite Hf in H.
+  apply andb_true_iff in H as [H He]. apply andb_true_iff in H as [_ H]. split; [assumption|].
+  destruct (l_err l); [discriminate|discriminate].
+Qed.
+
+Lemma accepts_nofault : forall l, accepts l = true -> l_fault l = false -> accepts_nf l = true.
+Proof. intros l H Hf. unfold accepts in H. rewrite Hf in H. assumption. Qed.
+
+Lemma accepts_monitor1 : forall l, accepts l = true -> monitor1 l = true.
+Proof.
+  intros l H. unfold monitor1. destruct (l_fault l) eqn:Hf.
+  - destruct (accepts_fault l H Hf) as [He _]. rewrite He. rewrite (all_empty_monitor l He). reflexivity.
+  - rewrite (accepts_nf_monitor1 l (accepts_nofault l H Hf)). reflexivity.
 Qed.
 
 Theorem run_monitor : forall ls s, run init ls = Some s -> monitor ls = true.
@@ -183,7 +210,7 @@ Qed.
 (* ---------- Prop-level readings ---------- *)
 
 (* accepted_valid: nothing reaches a subscriber unless the rule lets it in *)
-Theorem accepted_valid : forall l, accepts l = true ->
+Theorem accepted_valid_nf : forall l, accepts_nf l = true ->
   forall call d, In call (l_calls l) -> In d call ->
   d_valid d = true /\
   (match l_ent l with VApi self => d_idx d = self | Peer g _ => gate_ok g = true end) /\
@@ -191,7 +218,7 @@ Theorem accepted_valid : forall l, accepts l = true ->
     i_prop it = true /\ i_inner it = true /\
     lookup (d_v d) (l_lock l) = Some sh /\ In (d_idx d) sh /\ i_sig it = GSig (d_v d) (d_idx d) (d_root d).
 Proof.
-  intros l Ha call d Hc Hd. pose proof (accepts_monitor1 l Ha) as Hm. unfold monitor1 in Hm.
+  intros l Ha call d Hc Hd. pose proof (accepts_nf_monitor1 l Ha) as Hm. unfold monitor1_nf in Hm.
   apply andb_true_iff in Hm as [Hm _]. rewrite forallb_forall in Hm. specialize (Hm call Hc).
   rewrite forallb_forall in Hm. specialize (Hm d Hd).
   apply andb_true_iff in Hm as [Hm Hex]. apply andb_true_iff in Hm as [Hv He].
@@ -207,11 +234,11 @@ Proof.
 Qed.
 
 (* peer_set_atomic (holds for both entrances): one bad entry => no subscriber receives anything *)
-Theorem set_atomic : forall l, accepts l = true ->
+Theorem set_atomic_nf : forall l, accepts_nf l = true ->
   forall it x, In it (l_items l) -> item_outcome (l_lock l) (l_ent l) it = Some x ->
   (forall call, In call (l_calls l) -> call = []) /\ l_err l <> None.
 Proof.
-  intros l H it x Hin Ho. unfold accepts in H. cbv zeta in H.
+  intros l H it x Hin Ho. unfold accepts_nf in H. cbv zeta in H.
   apply andb_true_iff in H as [_ Hn].
   pose proof (errs_some _ _ _ _ _ Hin Ho) as Hne.
   assert (G : (let errs := flat_map (fun o : option gerr => match o with Some x => [x] | None => [] end)
@@ -244,13 +271,49 @@ Proof.
 Qed.
 
 (* a duty outside the gater window: nothing from that message reaches a subscriber *)
-Theorem peer_gate_closed : forall l g dec, accepts l = true -> l_ent l = Peer g dec -> gate_ok g = false ->
+Theorem peer_gate_closed_nf : forall l g dec, accepts_nf l = true -> l_ent l = Peer g dec -> gate_ok g = false ->
   (forall call, In call (l_calls l) -> call = []) /\ l_err l = Some EGate.
 Proof.
-  intros l g dec H El Hg. unfold accepts in H. cbv zeta in H. apply andb_true_iff in H as [_ Hn].
+  intros l g dec H El Hg. unfold accepts_nf in H. cbv zeta in H. apply andb_true_iff in H as [_ Hn].
   rewrite El in Hn. rewrite Hg in Hn. simpl in Hn. apply andb_true_iff in Hn as [Hn1 Hn2]. split.
   - intros call Hc. unfold all_empty in Hn2. rewrite forallb_forall in Hn2. specialize (Hn2 call Hc). destruct call; [reflexivity|discriminate].
   - destruct (l_err l) as [y|]; [|discriminate]. simpl in Hn1. apply gerr_eqb_eq in Hn1. subst. reflexivity.
+Qed.
+
+
+(* ---------- the same readings for the full model (env faults included) ---------- *)
+
+Theorem accepted_valid : forall l, accepts l = true ->
+  forall call d, In call (l_calls l) -> In d call ->
+  d_valid d = true /\
+  (match l_ent l with VApi self => d_idx d = self | Peer g _ => gate_ok g = true end) /\
+  exists it sh, In it (l_items l) /\ i_who it = Some (d_v d) /\ i_root it = d_root d /\ i_raw it = false /\
+    i_prop it = true /\ i_inner it = true /\
+    lookup (d_v d) (l_lock l) = Some sh /\ In (d_idx d) sh /\ i_sig it = GSig (d_v d) (d_idx d) (d_root d).
+Proof.
+  intros l Ha call d Hc Hd. destruct (l_fault l) eqn:Hf.
+  - destruct (accepts_fault l Ha Hf) as [He _]. rewrite (all_empty_In _ _ He Hc) in Hd. contradiction.
+  - apply (accepted_valid_nf l (accepts_nofault l Ha Hf) call d Hc Hd).
+Qed.
+
+Theorem set_atomic : forall l, accepts l = true ->
+  forall it x, In it (l_items l) -> item_outcome (l_lock l) (l_ent l) it = Some x ->
+  (forall call, In call (l_calls l) -> call = []) /\ l_err l <> None.
+Proof.
+  intros l Ha it x Hin Ho. destruct (l_fault l) eqn:Hf.
+  - destruct (accepts_fault l Ha Hf) as [He Hn]. split; [intros call Hc; apply (all_empty_In _ _ He Hc)|assumption].
+  - apply (set_atomic_nf l (accepts_nofault l Ha Hf) it x Hin Ho).
+Qed.
+
+Theorem peer_gate_closed : forall l g dec, accepts l = true -> l_fault l = false -> l_ent l = Peer g dec -> gate_ok g = false ->
+  (forall call, In call (l_calls l) -> call = []) /\ l_err l = Some EGate.
+Proof. intros l g dec Ha Hf. apply peer_gate_closed_nf. apply accepts_nofault; assumption. Qed.
+
+(* env fault => Reject: nothing is delivered and an error is returned, whatever was submitted *)
+Theorem fault_rejects : forall l, accepts l = true -> l_fault l = true ->
+  (forall call, In call (l_calls l) -> call = []) /\ l_err l <> None.
+Proof.
+  intros l Ha Hf. destruct (accepts_fault l Ha Hf) as [He Hn]. split; [intros call Hc; apply (all_empty_In _ _ He Hc)|assumption].
 Qed.
 
 (* the gater's arithmetic: a duty more than [allowed] epochs ahead of the current epoch is refused *)
@@ -263,19 +326,27 @@ Definition ex_lock : lockt := [(0%N, [1%Z; 2%Z; 3%Z; 4%Z]); (1%N, [1%Z; 2%Z; 3%Z
 Definition ex_vapi_ok : label :=
   mkl ex_lock (VApi 2%Z)
       [ mki (Some 0%N) 2%Z false 1%N (GSig 0 2 1) true true; mki (Some 1%N) 2%Z false 1%N (GSig 1 2 1) true true ] 1
-      None [ [ mkd 1%N 2%Z 1%N true; mkd 0%N 2%Z 1%N true ] ].
+      false None [ [ mkd 1%N 2%Z 1%N true; mkd 0%N 2%Z 1%N true ] ].
 Example ex_vapi_ok_accepted : run init [ex_vapi_ok] = Some tt.
 Proof. vm_compute. reflexivity. Qed.
 
 Definition ex_peer_bad : label :=
   mkl ex_lock (Peer (mkg true 100 96 32 2) true)
       [ mki (Some 0%N) 3%Z false 1%N (GSig 0 3 1) true true; mki (Some 1%N) 3%Z false 1%N (GSig 1 4 1) true true ] 2
-      (Some EBadSig) [ []; [] ].
+      false (Some EBadSig) [ []; [] ].
 Example ex_peer_bad_accepted : accepts ex_peer_bad = true.
 Proof. vm_compute. reflexivity. Qed.
 Example ex_peer_bad_delivery_refused :
-  accepts (mkl ex_lock (Peer (mkg true 100 96 32 2) true) (l_items ex_peer_bad) 1 None
+  accepts (mkl ex_lock (Peer (mkg true 100 96 32 2) true) (l_items ex_peer_bad) 1 false None
                [ [ mkd 0%N 3%Z 1%N true; mkd 1%N 3%Z 1%N false ] ]) = false.
 Proof. vm_compute. reflexivity. Qed.
-Example ex_peer_gate : accepts (mkl ex_lock (Peer (mkg true 200 96 32 2) true) (l_items ex_vapi_ok) 1 (Some EGate) [ [] ]) = true.
+Example ex_peer_gate : accepts (mkl ex_lock (Peer (mkg true 200 96 32 2) true) (l_items ex_vapi_ok) 1 false (Some EGate) [ [] ]) = true.
+Proof. vm_compute. reflexivity. Qed.
+
+(* a faulted call that delivers is refused; one that rejects is accepted whatever the submission *)
+Example ex_fault_delivery_refused :
+  accepts (mkl ex_lock (VApi 2%Z) (l_items ex_vapi_ok) 1 true None [ [ mkd 0%N 2%Z 1%N true; mkd 1%N 2%Z 1%N true ] ]) = false.
+Proof. vm_compute. reflexivity. Qed.
+Example ex_fault_reject_accepted :
+  accepts (mkl ex_lock (VApi 2%Z) (l_items ex_vapi_ok) 1 true (Some EPre) [ [] ]) = true.
 Proof. vm_compute. reflexivity. Qed.
